@@ -1164,7 +1164,13 @@ func (m *ModRef) GlobalWrites() []ExtWrite {
 // still points at shared backing storage.
 func (m *ModRef) GlobalReachWrites() []ExtWrite {
 	owner := map[*Obj]*Obj{}
-	for g, o := range m.globObj {
+	var globs []*ssa.Global
+	for g := range m.globObj {
+		globs = append(globs, g)
+	}
+	sort.Slice(globs, func(i, j int) bool { return globs[i].String() < globs[j].String() })
+	for _, g := range globs {
+		o := m.globObj[g]
 		if g.Pkg == nil || !core.IsLibraryPkg(g.Pkg.Pkg.Path()) {
 			continue
 		}
